@@ -140,4 +140,34 @@ func TestC18(t *testing.T) {
 			return okOrErr(err, b01(c))
 		}))
 	}
+	// covers on arguments that share memory: two windows of one buffer (same start with
+	// different lengths, overlapping, adjacent), and one slice passed twice.  The answer is a
+	// function of the two bit sequences only.
+	for k := 0; k < n/6; k++ {
+		buf := make([]byte, 1+rng.Intn(8))
+		rng.Read(buf)
+		if rng.Intn(3) == 0 {
+			for i := range buf {
+				buf[i] = buf[0]
+			}
+		}
+		cut := func() (int, int) {
+			lo := rng.Intn(len(buf) + 1)
+			return lo, lo + rng.Intn(len(buf)-lo+1)
+		}
+		a0, a1 := cut()
+		b0, b1 := cut()
+		switch rng.Intn(4) {
+		case 0:
+			b0 = a0 // same start
+			b1 = b0 + rng.Intn(len(buf)-b0+1)
+		case 1:
+			b0, b1 = a0, a1 // the same window twice
+		}
+		a, b := buf[a0:a1:a1], buf[b0:b1:b1]
+		out.emit("covers-alias", "covers", []string{hexBytes(a), hexBytes(b)}, guard(func() string {
+			c, err := bitfields.Covers(a, b)
+			return okOrErr(err, b01(c))
+		}))
+	}
 }
